@@ -83,7 +83,9 @@ static void op_sm4(int inst, out_t *o) { uint8_t k[16], iv[16], out[256], back[2
 	SM4_CBC_CTX cc; size_t l1, l2; o->rc += sm4_cbc_encrypt_init(&cc, k, iv); o->rc += sm4_cbc_encrypt_update(&cc, MSG, 70, out, &l1); o->rc += sm4_cbc_encrypt_finish(&cc, out + l1, &l2); mix(o, out, l1 + l2); }
 static void op_zuc(int inst, out_t *o) { uint8_t k[16], iv[16], out[200]; memset(k, 0x51 + inst, 16); memset(iv, 0x22, 16); ZUC_STATE z; zuc_init(&z, k, iv); zuc_encrypt(&z, MSG, 160, out); mix(o, out, 160); uint32_t mac = 0; ZUC_MAC_CTX m; zuc_mac_init(&m, k, iv); zuc_mac_update(&m, MSG, 99); uint8_t mb[4]; zuc_mac_finish(&m, NULL, 0, mb); mix(o, mb, 4); (void)mac; }
 static void op_sm2sign(int inst, out_t *o) { SM2_KEY k; o->rc += sm2_key_generate(&k); uint8_t pub[65]; sm2_z256_point_to_uncompressed_octets(&k.public_key, pub); mix(o, pub, 65); uint8_t sig[80]; size_t sl = 0; SM2_SIGN_CTX c; o->rc += sm2_sign_init(&c, &k, "id", 2); o->rc += sm2_sign_update(&c, MSG, 120 + inst); o->rc += sm2_sign_finish(&c, sig, &sl); mix(o, sig, sl); SM2_VERIFY_CTX v; o->rc += sm2_verify_init(&v, &k, "id", 2); o->rc += sm2_verify_update(&v, MSG, 120 + inst); o->rc += 10 * sm2_verify_finish(&v, sig, sl); uint8_t dg[32] = { 1 }; o->rc += sm2_sign(&k, dg, sig, &sl); mix(o, sig, sl); o->rc += 100 * sm2_verify(&k, dg, sig, sl); }
-static void op_sm2enc(int inst, out_t *o) { const SM2_KEY *k = &CK[inst % 4]; uint8_t ct[400], pt[200]; size_t cl = 0, pl = 0; o->rc += sm2_encrypt(k, MSG, 100, ct, &cl); mix(o, ct, cl); o->rc += sm2_decrypt(k, ct, cl, pt, &pl); mix(o, pt, pl); uint8_t sh[64]; uint8_t oct[65]; sm2_z256_point_to_uncompressed_octets(&CK[5].public_key, oct); o->rc += sm2_ecdh(k, oct, 65, sh); mix(o, sh, 64); }
+static void op_sm2enc(int inst, out_t *o) { const SM2_KEY *k = &CK[inst % 4]; uint8_t ct[400], pt[200]; size_t cl = 0, pl = 0; o->rc += sm2_encrypt(k, MSG, 100, ct, &cl); mix(o, ct, cl); o->rc += sm2_decrypt(k, ct, cl, pt, &pl); mix(o, pt, pl); uint8_t sh[64]; uint8_t oct[65]; sm2_z256_point_to_uncompressed_octets(&CK[5].public_key, oct); o->rc += sm2_ecdh(k, oct, 65, sh); mix(o, sh, 64);
+	/* the nonce-batch interface (own pool per task) and the streaming encryptor */ { SM2_ENC_PRE_COMP pc[SM2_ENC_PRE_COMP_NUM]; o->rc += 100 * sm2_encrypt_pre_compute(pc); for (int i = 0; i < SM2_ENC_PRE_COMP_NUM; i++) { SM2_CIPHERTEXT C; uint8_t p2[64]; size_t l2 = 0; int r = sm2_do_encrypt_ex(k, &pc[i], MSG + i, 32, &C); o->rc += 1000 * (r == 1); if (r == 1) { mix(o, &C.point, 64); o->rc += 10000 * (sm2_do_decrypt(k, &C, p2, &l2) == 1); mix(o, p2, l2 <= 64 ? l2 : 0); } }
+	  SM2_ENC_CTX ec; if (sm2_encrypt_init(&ec) == 1) { sm2_encrypt_update(&ec, MSG, 40); cl = 0; o->rc += 3 * sm2_encrypt_finish(&ec, k, ct, &cl); pl = 0; o->rc += 5 * (sm2_decrypt(k, ct, cl, pt, &pl) == 1); mix(o, pt, pl); } } }
 static void op_sm9(int inst, out_t *o) { SM9_SIGN_MASTER_KEY m; SM9_SIGN_KEY k; o->rc += sm9_sign_master_key_generate(&m); o->rc += sm9_sign_master_key_extract_key(&m, "alice", 5, &k); uint8_t sig[200]; size_t sl = 0; SM9_SIGN_CTX c; sm9_sign_init(&c); sm9_sign_update(&c, MSG, 50 + inst); o->rc += sm9_sign_finish(&c, &k, sig, &sl); mix(o, sig, sl); sm9_verify_init(&c); sm9_verify_update(&c, MSG, 50 + inst); o->rc += 10 * sm9_verify_finish(&c, sig, sl, &m, "alice", 5); }
 static void op_x509(int inst, out_t *o) { cert_spec ca, lf; spec_ca(&ca, "R", -1); char cn[8]; snprintf(cn, sizeof cn, "l%d", inst); spec_leaf(&lf, cn, X509_KU_DIGITAL_SIGNATURE); lf.eku = 1; uint8_t root[1024], leaf[1024]; size_t rl = 0, ll = 0; o->rc += make_cert(&ca, &CK[5], &CK[5], "R", root, &rl); o->rc += make_cert(&lf, &CK[inst % 4], &CK[5], "R", leaf, &ll); mix(o, root, rl); mix(o, leaf, ll);
 	int vr = 0; o->rc += 10 * x509_certs_verify(leaf, ll, X509_cert_chain_server, root, rl, 4, &vr); const uint8_t *sub; size_t subl; o->rc += x509_cert_get_subject(leaf, ll, &sub, &subl); mix(o, sub, subl); leaf[ll - 5] ^= 1; o->rc += 100 * (x509_certs_verify(leaf, ll, X509_cert_chain_server, root, rl, 4, &vr) == 1); /* error path: error_print */ }
